@@ -10,8 +10,8 @@
 import os, json, time, concurrent.futures as cf
 from . import lib
 
-CONV_EVENTS = {"C1", "CS", "CN", "SEP", "DF", "MEAN"}
-DFT_EVENTS = {"FI", "RC", "TW"}
+CONV_EVENTS = {"C1", "CS", "CN", "SEP", "DF", "MEAN", "MED", "THR", "TRUNC", "CHAIN", "ON1", "ELT", "RAMP", "RT"}
+DFT_EVENTS = {"FI", "RC", "TW", "TWN"}
 
 
 def _split(path, outdir, parts, tag):
@@ -47,13 +47,27 @@ def _key(rec):
     if e == "SEP":
         return (e, rec["via"], tuple(rec["klo"]), tuple(len(x) for x in rec["kv"]), tuple(rec["bc"]), tuple(rec["dn"]))
     if e == "MEAN":
-        return (e, rec.get("filter"), tuple(rec.get("fwhm", [])), tuple(rec.get("vox", [])), tuple(rec.get("mk", [])))
+        return (e, rec.get("filter"), tuple(rec.get("fwhm", [])), tuple(rec.get("vox", [])), tuple(rec.get("mk", [])), tuple(rec.get("power", [])))
     if e == "FI":
         return (e, rec["dim"], tuple(rec["n"]), rec["sign"], rec["kind"])
     if e == "RC":
         return (e, rec["dim"], tuple(rec["n"]), rec["sign"])
-    if e == "TW":
+    if e in ("TW", "TWN"):
         return (e, tuple(rec["n"]), rec["sign"])
+    if e == "MED":
+        return (e, rec["kind"], rec["via"], tuple(rec["r"]), tuple(rec["dn"]))
+    if e in ("THR", "TRUNC"):
+        return (e, rec["via"], tuple(rec["dlo"]), tuple(rec["dn"]), rec.get("rim"), rec.get("strict"))
+    if e == "CHAIN":
+        return (e, rec["shape"], rec["via"], tuple(st["t"] for st in rec["stages"]))
+    if e == "ON1":
+        return (e, rec["dim"], rec["via"], rec["bc"], rec["klo"], len(rec["k"]), tuple(rec["dn"]), tuple(rec["on"]))
+    if e == "ELT":
+        return (e, rec["fn"], rec["dim"], tuple(rec["n"]))
+    if e == "RAMP":
+        return (e, rec["L"], rec["alpha"], rec["fc"])
+    if e == "RT":
+        return (e, rec.get("type"), tuple(rec.get("dn", [])))
     return (str(e),)
 
 
@@ -86,10 +100,12 @@ def run(ctx):
         t1 = os.path.join(ctx.work, "conv.ndjson")
         lib.run_driver(exe, ["conv", t1, 300 if q else 6000, 0 if q else 1], env=env, timeout=600)
         t2 = os.path.join(ctx.work, "dft.ndjson")
-        lib.run_driver(exe, ["dft", t2, 256 if q else 2048, 1 if q else 2, 256 if q else 1024], env=env, timeout=600)
+        lib.run_driver(exe, ["dft", t2, 256 if q else 2048, 1 if q else 2, 256 if q else 1024, 512 if q else 4096], env=env, timeout=600)
         t3 = os.path.join(ctx.work, "filt.ndjson")
         lib.run_driver(exe, ["filt", t3, 45 if q else 400], env=env, timeout=900)
-        jobs = [("Trace_Conv", t1, 2 if q else 6), ("Trace_DFT4", t2, 4 if q else 8), ("Trace_Conv", t3, 2 if q else 8)]
+        t4 = os.path.join(ctx.work, "more.ndjson")
+        lib.run_driver(exe, ["more", t4, 40 if q else 600], env=env, timeout=900)
+        jobs = [("Trace_Conv", t1, 2 if q else 6), ("Trace_DFT4", t2, 4 if q else 8), ("Trace_Conv", t3, 2 if q else 8), ("Trace_Conv", t4, 1 if q else 4)]
     t2w = time.time()
     # 3. validate (pieces in parallel; the lines are independent observations)
     pieces = []
@@ -129,8 +145,11 @@ def run(ctx):
             out = [recs[i - 1] for i in newbad[:20]]
             rp = os.path.join(ctx.work, "violation-" + os.path.basename(p))
             lib.write_ndjson(rp, out)
-            ctx.violation("%d recorded results not explained by %s, first: %s" % (len(newbad), mod.replace("Trace_", "") + ".tla", json.dumps(out[0])[:240]), rp)
-    for e in ("C1", "DF", "FI", "RC", "TW", "MEAN", "SEP", "CN", "CS"):
+            kinds = {}
+            for i in newbad:
+                kinds[recs[i - 1].get("e")] = kinds.get(recs[i - 1].get("e"), 0) + 1
+            ctx.violation("%d recorded results not explained by %s, kinds %s, first: %s" % (len(newbad), mod.replace("Trace_", "") + ".tla", json.dumps(kinds, sort_keys=True), json.dumps(out[0])[:200]), rp)
+    for e in ("C1", "DF", "FI", "RC", "TW", "TWN", "MEAN", "SEP", "CN", "CS", "MED", "THR", "TRUNC", "CHAIN", "ON1", "ELT", "RAMP", "RT"):
         if not ctx.replay and counts.get(e, 0) == 0:
             raise lib.ModelFailure("no %s event recorded" % e)
     for rec in (lib.read_ndjson(pieces[0][1])[:2] if pieces else []):
@@ -138,6 +157,7 @@ def run(ctx):
     ctx.extra["events"] = counts
     ctx.exhaustive = False
     ctx.assumptions = [
+        "beyond the property text (named sections of Conv.tla / Trace_Conv.tla): median, minimal, threshold, truncate-to-FOV, chained processors, ramp filter relations, elementwise abs/log/exp relations, function objects on the first index, parameter_info -> parse round trips, data longer than the padded length",
         "single-precision error model of the FFT (Higham, Theorem 24.2) with eta = 2^-20 per stage bounds the fixed-point tolerances (named operators FxTol, DFTRouteTol)",
         "transform values: exactly for lengths 1, 2, 4 per axis; 1-D lengths up to 1024 through the observed twiddle table (character of Z_n pinned by w[n/4] = i^sign and the quadrant condition) to about 1E-4 absolute per twiddle and 1% per value; multi-dimensional transforms of longer axes only through relations between observations (inverse, Parseval, impulse, real vs complex)",
         "Gaussian/Metz kernels are observed through the impulse response of the same filter; Metz tolerance 2^-10 because the kernel is cut at 1E-4 of its centre value",
